@@ -346,6 +346,13 @@ func (c *compiler) compileExpList(exps []ast.ExpNode, dstRegs []ir.Register) {
 		c.TakeRegister(dst)
 		dstRegs[i] = dst
 	}
+	if len(exps) > len(dstRegs) {
+		// Expressions in excess are still evaluated (they may have side
+		// effects), their values are thrown away.
+		for _, exp := range exps[len(dstRegs):] {
+			c.compileExpInto(exp, c.GetFreeRegister())
+		}
+	}
 	if doTailExp {
 		c.compileTailExp(tailExp, dstRegs[commonCount:])
 	} else if len(dstRegs) > len(exps) {
